@@ -332,12 +332,17 @@ def plain_key(ct, k: Any) -> Any:
     return z3.And(k != M.EllV, z3.Not(M.isinstance_f(ct, k, "optional")))
 
 
-@contract(T_ + "_dict_schema.py", "DictSchema.__call__", props=("C10",), trusted=True,
-          note="assumed (body with loop L16 not yet verified): only DeclarationError; for an input dict whose keys "
-               "are plain (no `...`, no optional(...)) and whose values are schemas, the result's key table maps each "
-               "key to (schema, False) and has no other key")
+def dict_item_bad(ct, k: Any, v: Any) -> Any:
+    """the item DictSchema.__call__ refuses: `...` on one side only, or a non-schema value"""
+    return z3.If(z3.Or(k == M.EllV, v == M.EllV), z3.Not(z3.And(k == M.EllV, v == M.EllV)), z3.Not(S.is_schema(ct, v)))
+
+
+@contract(T_ + "_dict_schema.py", "DictSchema.__call__", props=("C10", "C14", "C07", "C17"), group="declaration")
 def _dict_call(c):
+    """only DeclarationError; for an input dict whose keys are plain (no `...`, no optional(...)) and whose values are
+    schemas, the result's key table maps each key, in order, to (schema, False) and has no other key (loop L16)"""
     ct = c.ct
+    c.reproducible()
     Sx = c.sym("self", "DictSchema")
     keys = c.sym("keys")
     c.raises("DeclarationError")
@@ -345,15 +350,22 @@ def _dict_call(c):
     isdict = M.isinstance_f(ct, keys, "dict")
     all_plain = z3.ForAll([x], z3.Implies(M.has(keys, x), z3.And(plain_key(ct, x), S.is_schema(ct, M.dget(keys, x)))),
                           patterns=[M.has(keys, x)])
-    c.raises_when("DeclarationError", z3.Or(z3.Not(isdict), S.declared(Sx, "keys"),
-                                            z3.And(isdict, z3.Not(all_plain), M.fresh("dict_call_other", M.B))))
+    jb = z3.Int("dcj")
+    c.raises_when("DeclarationError", z3.Or(z3.Not(isdict), S.declared(Sx, "keys"), z3.Exists(
+        [jb], z3.And(0 <= jb, jb < M.klen(keys), dict_item_bad(ct, M.kat(keys, jb), M.dget(keys, M.kat(keys, jb)))),
+        patterns=[M.kat(keys, jb)])))
     c.returns("DictSchema")
 
     def post(r, post_):
         K = S.prop(r, "keys")
         pair = M.dget(K, x)
-        bk = M.fresh("badkey")      # explicit witness of `not all_plain` (no nested quantifier)
-        not_plain_at = z3.And(M.has(keys, bk), z3.Not(z3.And(plain_key(ct, bk), S.is_schema(ct, M.dget(keys, bk)))))
+        if c.mode == "verify":
+            bk = z3.Const("badkey", Obj)
+            wrap = lambda f: z3.Exists([bk], f, patterns=[M.has(keys, bk)])
+        else:
+            bk = M.fresh("badkey")      # at call sites: an explicit witness of `not all_plain` (Skolem constant)
+            wrap = lambda f: f
+        not_plain_at = wrap(z3.And(M.has(keys, bk), z3.Not(z3.And(plain_key(ct, bk), S.is_schema(ct, M.dget(keys, bk))))))
         return z3.And(*S.shape(ct, r, "DictSchema"), S.declared(r, "keys"), M.isinstance_f(ct, K, "dict"),
                       z3.Or(not_plain_at, z3.And(
                           M.klen(K) == M.klen(keys),
@@ -368,3 +380,47 @@ def _dict_call(c):
                                         z3.And(S.wf(M.dget(keys, x)), S.reach(M.dget(keys, x)))),
                         patterns=[M.has(keys, x)])
     c.ensures("members-carry-over", lambda r, post_: z3.Implies(vals_ok, z3.And(S.wf(r), S.reach(r))))
+
+
+@invariant(T_ + "_dict_schema.py", "DictSchema.__call__", loop=0)
+def _inv_dict_call(L):
+    """L16: no item seen so far is refused; and unless one of them has a non-plain key (`...` / optional), `real_keys`
+    holds exactly the keys seen so far, in order, each mapped to (schema, False)"""
+    ct = L.ct
+    keys, real = L.v("keys"), L.v("real_keys")
+    j, b = z3.Ints("dj db")
+    x = z3.Const("dx", Obj)
+    pair = M.dget(real, x)
+    val_at = lambda t: M.dget(keys, M.kat(keys, t))
+    return z3.And(
+        M.is_Ref(real), M.rcls(real) == ct.id("dict"),
+        z3.ForAll([j], z3.Implies(z3.And(0 <= j, j < L.i), z3.Not(dict_item_bad(ct, M.kat(keys, j), val_at(j)))),
+                  patterns=[M.kat(keys, j)]),
+        # whatever the keys look like: every entry is a (member, flag) pair whose member is the value of an item seen
+        # so far (the `...: ...` entry is stored as (..., False))
+        z3.ForAll([x], z3.Implies(M.has(real, x), z3.And(
+            M.is_Ref(pair), M.rcls(pair) == ct.id("tuple"), M.llen(pair) == 2, M.is_BoolV(M.lat(pair, 1)),
+            z3.If(x == M.EllV, z3.And(M.lat(pair, 0) == M.EllV, M.lat(pair, 1) == M.mk_bool(False)),
+                  z3.And(S.is_schema(ct, M.lat(pair, 0)),
+                         z3.Exists([b], z3.And(0 <= b, b < L.i, M.lat(pair, 0) == val_at(b)), patterns=[M.kat(keys, b)]))))),
+            patterns=[M.has(real, x)]),
+        z3.Or(z3.Exists([b], z3.And(0 <= b, b < L.i, z3.Not(plain_key(ct, M.kat(keys, b)))), patterns=[M.kat(keys, b)]),
+              z3.And(
+                  M.klen(real) == L.i,
+                  z3.ForAll([j], z3.Implies(z3.And(0 <= j, j < L.i), M.kat(real, j) == M.kat(keys, j)), patterns=[M.kat(real, j)]),
+                  z3.ForAll([x], M.has(real, x) == z3.And(M.has(keys, x), M.kidx(keys, x) < L.i), patterns=[M.has(real, x)]),
+                  z3.ForAll([x], z3.Implies(M.has(real, x), z3.And(
+                      M.is_Ref(pair), M.rcls(pair) == ct.id("tuple"), M.llen(pair) == 2,
+                      M.lat(pair, 0) == M.dget(keys, x), M.lat(pair, 1) == M.mk_bool(False))), patterns=[M.dget(real, x)]))))
+
+
+def _optional_invariant(ct) -> List[Any]:
+    """class invariant of `optional` (trusted): optional.__init__ raises TypeError for `...` and `_key` is never
+    reassigned, so no optional object wraps an Ellipsis"""
+    o = z3.Const("opt_o", Obj)
+    return [z3.ForAll([o], z3.Implies(z3.And(M.is_Ref(o), M.rcls(o) == ct.id("optional")), M.attr("_key")(o) != M.EllV),
+                      patterns=[M.attr("_key")(o)])]
+
+
+from pyvc.contracts import REG as _REGD  # noqa: E402
+_REGD.axiom_fns.append(_optional_invariant)
